@@ -350,8 +350,24 @@ func lawOverlap(own, texts, prefix [][]byte, has []bool, titles []string, oc rag
 	if len(texts) != len(own) {
 		return &verdict{"overlap-count", fmt.Sprintf("%s: %d chunks in, %d out", who, len(own), len(texts))}
 	}
+	inputValid := true
+	for i := range own {
+		inputValid = inputValid && utf8.Valid(own[i])
+	}
+	if !inputValid {
+		// the library may hand back an undecodable byte as it is or as U+FFFD (one per byte, as a
+		// conversion through []rune does): both sides are compared in the replaced form
+		norm := func(bs [][]byte) [][]byte {
+			out := make([][]byte, len(bs))
+			for i, b := range bs {
+				out[i] = []byte(string([]rune(string(b))))
+			}
+			return out
+		}
+		own, texts, prefix = norm(own), norm(texts), norm(prefix)
+	}
 	for i := range texts {
-		if !utf8.Valid(texts[i]) {
+		if inputValid && !utf8.Valid(texts[i]) {
 			return &verdict{"invalid-utf8", fmt.Sprintf("%s: text of chunk %d is not valid UTF-8 after overlap", who, i)}
 		}
 		if i == 0 || !has[i] || len(prefix[i]) == 0 {
@@ -364,7 +380,7 @@ func lawOverlap(own, texts, prefix [][]byte, has []bool, titles []string, oc rag
 		if oc.Strategy == rag.OverlapNone {
 			return &verdict{"overlap-none", fmt.Sprintf("%s: chunk %d got an overlap prefix with strategy none", who, i)}
 		}
-		if !utf8.Valid(p) {
+		if inputValid && !utf8.Valid(p) {
 			return &verdict{"overlap-invalid-utf8", fmt.Sprintf("%s: overlap prefix of chunk %d is not valid UTF-8: %x…", who, i, p[:min(len(p), 12)])}
 		}
 		if n := utf8.RuneCount(p); n > oc.MaxOverlap {
@@ -440,13 +456,13 @@ func evaluate(c *fw.Ctx, w *wcase, r *wresult) *verdict {
 		c.Count("overlaps_checked", int64(len(r.Pieces)))
 		// GenerateOverlap directly
 		if len(w.Texts) > 0 && len(r.Gen) > 0 {
-			if !utf8.Valid(r.Gen) {
+			if utf8.Valid(w.Texts[0]) && !utf8.Valid(r.Gen) {
 				return &verdict{"overlap-invalid-utf8", fmt.Sprintf("GenerateOverlap: result is not valid UTF-8: %x…", r.Gen[:min(len(r.Gen), 12)])}
 			}
 			if n := utf8.RuneCount(r.Gen); n > w.Overlap.MaxOverlap {
 				return &verdict{"overlap-too-long", fmt.Sprintf("GenerateOverlap: %d characters, MaxOverlap is %d", n, w.Overlap.MaxOverlap)}
 			}
-			if !strings.HasSuffix(squeeze(w.Texts[0]), squeeze(r.Gen)) {
+			if !strings.HasSuffix(squeeze([]byte(string([]rune(string(w.Texts[0]))))), squeeze([]byte(string([]rune(string(r.Gen)))))) {
 				return &verdict{"overlap-not-suffix", fmt.Sprintf("GenerateOverlap: result %q is not the end of the chunk text (…%q)", fw.OneLine(string(r.Gen), 120), tail(string(w.Texts[0]), 80))}
 			}
 		}
